@@ -963,6 +963,17 @@ def substring_pairs(rng, quick, rev=False):
             pairs.append((x, b"q" * 40 + x + b"q" * 9))
             pairs.append((x, x[1:] + x[:-1] + b"q" + x))
             pairs.append((x, x[:-1] * 2))
+    # needles of 242..300 bytes whose rare bytes sit at offsets 241..254 (the vector prefilter's minimum then exceeds the
+    # needle length) in haystacks only 0..14 bytes longer than the needle: the short-haystack prefilter path must look
+    # at positions >= 255  (seeded change C11-e)
+    for n in (242, 256, 260, 269, 300):
+        for (o1, o2) in ((1, 252), (241, 254), (250, 3), (254, 0)):
+            if o1 < n and o2 < n:
+                y = bytearray(b"e" * n); y[o1] = 0x6b; y[o2] = 0x51
+                x = bytes(y)
+                for kpre in (0, 1, 5, 13, 14, 15, 40):
+                    pairs.append((x, b"e" * kpre + x))
+                    pairs.append((x, b"e" * kpre + x[:-1] + b"e"))
     sm = stale_memory_pairs(rng, quick)
     pairs += sm[::5] if quick else sm
     if not quick:
@@ -1668,6 +1679,11 @@ def c13_families(N, rng):
         # huge candidate-free prefix, then a dense false-candidate region (keeps the adaptive prefilter on)
         fam.append(("free prefix then dense", x, b"-" * (N // 2) + ((x[:2] + b"q") * (N // 6 + 1))[: N // 2]))
         fam.append(("alternating sparse/dense", x, ((b"-" * 400) + (x[:3] + b"Q") * 49) * (N // 600 + 1)))
+    # a long match-free stretch next to many matches (both orders): complete traversals
+    for x in (b"ab", b"abcdefgh" * 5):
+        Mm = N // (4 * len(x))
+        fam.append(("free stretch then matches", x, b"x" * (N // 2) + x * Mm))
+        fam.append(("matches then free stretch", x, x * Mm + b"x" * (N // 2)))
     # periodic long needle vs its own near-periods with the prefilter kept effective
     x = (b"abcdefgh" * 6)[:45]
     fam.append(("periodic long in near-period", x, ((b"-" * 90) + x[:-1] + b"!" + x[8:-1] + b"!") * (N // 180 + 1)))
@@ -1738,6 +1754,16 @@ def gen_c13_escalate(rng):
         cases.append(f"mm f=rfind x={hexs(b'a' * (m - 1) + b'b')} h={hexs(b'a' * (2 * m - 1))}")
         x = (b"abcdefgh" * (m // 8))[:m - 3]
         cases.append(f"mm f=find cfg=auto rank=default x={hexs(x)} h={hexs(((b'-' * 90) + x[:-1] + b'!' + x[8:-1] + b'!') * 2)}")
+    # complete traversals over a long match-free stretch next to many matches: work that is repeated per call
+    # (re-scanning the stretch, re-building state) multiplies the two  (seeded change C13-e)
+    for (L, M) in ((1 << 16, 1 << 15), (1 << 17, 1 << 16)):
+        for x in (b"ab", b"abcdefgh" * 5):
+            hr = b"x" * L + x * M
+            hf = x * M + b"x" * L
+            cases.append(f"mmiter dir=r k={M + 1} x={hexs(x)} h={hexs(hr)}")
+            cases.append(f"mmiter dir=f cfg=auto rank=default k={M + 1} x={hexs(x)} h={hexs(hf)}")
+            cases.append(f"mmiter dir=r k={M + 1} x={hexs(x)} h={hexs(hf)}")
+            cases.append(f"mmiter dir=f cfg=none rank=default k={M + 1} x={hexs(x)} h={hexs(hr)}")
     return cases
 
 def oracle_c13(op, kv, res, trace, flags):
